@@ -25,3 +25,53 @@ func GoodWitness(n int, colours []int) (int, []byte) {
 	}
 	return n, out
 }
+
+// Controls for EMIT.
+
+type frame struct{ R, P []int }
+
+// BadEmitAppend hands out slices that share a backing array: the child prefix is built with
+// append on a slice read back from the work stack.
+func BadEmitAppend(n int, c chan []int) {
+	stack := []frame{{make([]int, 0), make([]int, n)}}
+	for len(stack) > 0 {
+		fr := stack[len(stack)-1]
+		stack = stack[:len(stack)-1]
+		if len(fr.P) == 0 {
+			c <- fr.R
+			continue
+		}
+		for i := range fr.P {
+			child := append(fr.R, i)
+			stack = append(stack, frame{child, fr.P[:i]})
+		}
+	}
+}
+
+// BadEmitReuse sends one buffer again and again.
+func BadEmitReuse(n int, c chan []int) {
+	buf := make([]int, 1)
+	for i := 0; i < n; i++ {
+		buf[0] = i
+		c <- buf
+	}
+}
+
+// GoodEmit copies before extending.
+func GoodEmit(n int, c chan []int) {
+	stack := []frame{{make([]int, 0), make([]int, n)}}
+	for len(stack) > 0 {
+		fr := stack[len(stack)-1]
+		stack = stack[:len(stack)-1]
+		if len(fr.P) == 0 {
+			c <- fr.R
+			continue
+		}
+		for i := range fr.P {
+			child := make([]int, len(fr.R)+1)
+			copy(child, fr.R)
+			child[len(child)-1] = i
+			stack = append(stack, frame{child, fr.P[:i]})
+		}
+	}
+}
